@@ -3,7 +3,7 @@ import itertools
 import z3
 from pyvc.engine import harness
 from pyvc import sym
-from pyvc.interp import SObj, PyExc, exc_class, call_value
+from pyvc.interp import SObj, PyExc, exc_class, call_value, BoundMethod, resolve
 from pyvc.libmodels import LockModel, _M
 from contracts import pool_common as P
 from contracts import rf_common as R
@@ -111,7 +111,7 @@ def legacy(vc):
     asked = {}
     for i, c in enumerate(conns):
         c.set_keyspace_async = (lambda i: (lambda ks, cb: asked.__setitem__(i, (ks, cb))))(i)
-    pool = vc.obj(HostConnectionPool, _connections=list(conns), _keyspace='old', host=P.HostObj())
+    pool = vc.obj(HostConnectionPool, _connections=list(conns), _keyspace='old', host=P.HostObj(), _lock=LockModel('pool._lock'))
     returned = []
     vc.stub('cassandra.pool.HostConnectionPool.return_connection', lambda self_, conn, **k: returned.append(conn))
     done = []
@@ -197,3 +197,97 @@ def legacy_new_conn(vc):
     vc.call('cassandra.pool.HostConnectionPool._add_conn_if_under_max', pool)
     cs = pool.attrs['_connections']
     vc.check('post/one-connection-published-with-the-current-keyspace', len(cs) == 1 and cs[0].keyspace == 'current')
+
+
+@harness('C20', 'replacement-connection-vs-switch', functions=['cassandra.pool.HostConnection._replace', 'cassandra.pool.HostConnection._set_keyspace_for_all_conns'],
+         native='contracts.native.c20:replay_replace')
+def replace_vs_switch(vc):
+    """a keyspace switch arriving while the pool is replacing its connection (no open connection at that moment, so the switch only records the keyspace and reports
+    success), injected at each blocking call of _replace - while the new connection is being opened, while it is selecting the previous keyspace - or not at all:
+    ensures the connection that _replace publishes has the keyspace the pool remembers at that moment, i.e. the one the last successful switch asked for"""
+    from pyvc.interp import BoundMethod, resolve
+    HC = P.HC
+    w = P.World(vc)
+    old = P.Conn(w, 'old')
+    old.is_defunct = True
+    pool, lock = P.host_connection(vc, w, old, replacing=True, keyspace='ks_old')
+    pool.attrs['_connection'] = None          # return_connection has already dropped the defunct connection
+    when = vc.choice('switch_arrives', ['never', 'while-opening', 'while-selecting-the-previous-keyspace'])
+    reported = []
+    switched = []
+
+    def switch():
+        if not switched:
+            switched.append(1)
+            call_value(vc.ctx, BoundMethod(resolve(HC + '_set_keyspace_for_all_conns'), pool), ['ks_new', _M(lambda p, e: reported.append(list(e)), 'cb')], {})
+    if when == 'while-opening':
+        w.factory_hook = switch
+    real_new = []
+
+    class NewConn(P.Conn):
+        def set_keyspace_blocking(self_, ks):
+            if when == 'while-selecting-the-previous-keyspace':
+                switch()
+            self_.keyspace = ks
+    w.conn_class = NewConn
+    vc.call(HC + '_replace', pool, old)
+    c = pool.attrs['_connection']
+    want = 'ks_old' if when == 'never' else 'ks_new'
+    vc.check('post/a-connection-is-published', c is not None and c is not old)
+    if c is not None and c is not old:
+        vc.check('post/published-connection-has-the-keyspace-of-the-last-successful-switch', c.keyspace == want and pool.attrs['_keyspace'] == want)
+    if when != 'never':
+        vc.check('switch/completed-without-error', reported == [[]])
+
+
+@harness('C20', 'legacy-new-connection-vs-switch', functions=['cassandra.pool.HostConnectionPool._add_conn_if_under_max', 'cassandra.pool.HostConnectionPool._set_keyspace_for_all_conns',
+                                                              'cassandra.cluster.Session._set_keyspace_for_all_pools'], native='contracts.native.c20:replay_legacy_add')
+def legacy_add_vs_switch(vc):
+    """the legacy (protocol v1/v2) pool opening an additional connection while the session switches keyspace: the switch (session keyspace updated, then every
+    connection the pool lists is switched) is injected at each blocking call of _add_conn_if_under_max - while the connection is being opened, while it is
+    selecting the previous keyspace - or not at all, on a pool that is empty or has one connection, and whose remembered keyspace may be unset:
+    ensures the connection that gets published has the session's keyspace of that moment (either it selected it itself or the switch reached it)"""
+    import time
+    from cassandra.pool import HostConnectionPool
+    w = P.World(vc)
+    sess = P.Session(w, keyspace='ks_old')
+    sess.cluster.get_max_connections_per_host = lambda d: 8
+    existing = vc.choice('pool_has_a_connection', [False, True])
+    remembered = vc.choice('pool_remembers', ['ks_old', None])          # None: the pool was created before any keyspace was selected and was empty during the switch
+    first = P.Conn(w, 'first', in_flight=0)
+    first.keyspace = 'ks_old'
+    first.set_keyspace_async = lambda ks, cb: (setattr(first, 'keyspace', ks), call_value(vc.ctx, cb, [first, None], {}))
+    pool = vc.obj(HostConnectionPool, _session=sess, host=P.HostObj(), host_distance=0, _lock=LockModel('pool._lock'), is_shutdown=False,
+                  open_count=1 if existing else 0, _connections=[first] if existing else [], _keyspace=remembered, _next_trash_allowed_at=0)
+    vc.stub('cassandra.pool.HostConnectionPool._signal_available_conn', lambda self_: None)
+    vc.stub('cassandra.pool.HostConnectionPool.return_connection', lambda self_, conn, **k: None)
+    vc.stub(time.time, lambda: 0.0)
+    when = vc.choice('switch_arrives', ['never', 'while-opening', 'while-selecting-the-previous-keyspace'])
+    reported, switched = [], []
+
+    def switch():
+        if switched:
+            return
+        switched.append(1)
+        sess.keyspace = 'ks_new'                   # Session._set_keyspace_for_all_pools: the session keyspace first, then every pool
+        call_value(vc.ctx, BoundMethod(resolve('cassandra.pool.HostConnectionPool._set_keyspace_for_all_conns'), pool), ['ks_new', _M(lambda p, e: reported.append(list(e)), 'cb')], {})
+    if when == 'while-opening':
+        w.factory_hook = switch
+
+    class NewConn(P.Conn):
+        def set_keyspace_blocking(self_, ks):
+            if when == 'while-selecting-the-previous-keyspace':
+                switch()
+            self_.keyspace = ks
+
+        def set_keyspace_async(self_, ks, cb):
+            self_.keyspace = ks
+            call_value(vc.ctx, cb, [self_, None], {})
+    w.conn_class = NewConn
+    vc.call('cassandra.pool.HostConnectionPool._add_conn_if_under_max', pool)
+    want = 'ks_old' if when == 'never' else 'ks_new'
+    cs = list(pool.attrs['_connections'])
+    vc.check('post/the-new-connection-is-published', len(cs) == (2 if existing else 1))
+    vc.check('post/every-listed-connection-has-the-session-keyspace', all(c.keyspace == want for c in cs))
+    if when != 'never':
+        vc.check('switch/completed-without-error', reported == [[]])
